@@ -379,6 +379,8 @@ func comboUnit(c *core.Ctx, cb combo, L int, first int) {
 			if cb.needs && L <= 4 {
 				// closes that are no ordinary prices: a missing quote read as NaN, and a worthless asset (close 0)
 				alphabets = append(alphabets, []float64{2, math.NaN(), 3, 1}, []float64{2, 0, 3, 1})
+				// negative closes (spreads, differenced or de-meaned series): "above" and "x% below" keep their plain meaning
+				alphabets = append(alphabets, []float64{-3, -5, -2, 2})
 			}
 			for _, alphabet := range alphabets {
 				for _, cw := range clWords {
